@@ -82,4 +82,7 @@ def is_nonempty_str(txt: Optional[str]) -> bool:
 def hash_comp_cls(comp_cls: Type["Component"]) -> str:
     full_name = get_import_path(comp_cls)
     comp_cls_hash = md5(full_name.encode()).hexdigest()[0:6]
-    return comp_cls.__name__ + "_" + comp_cls_hash
+    # NOTE: The hash is embedded in HTML comments, URLs and JS code, and the (bytes) regexes that
+    #       find it there match only ASCII. Class names may contain any unicode letter.
+    ascii_name = re.sub(r"[^0-9a-zA-Z_]", "_", comp_cls.__name__)
+    return ascii_name + "_" + comp_cls_hash
